@@ -115,11 +115,14 @@ func (allocEngine) Gen(rng *rand.Rand, tier string, i int) any {
 		c.Ops = 400
 	}
 	c.PoolLen, c.Page = sh[0], sh[1]
-	if rng.Intn(25) == 0 {
+	if rng.Intn(20) == 0 {
 		// pools that contain IPv4-mapped space (::ffff:0:0/96) without being written in that form: some of their
 		// block bases are addresses net.IP.To4 answers for, the pool base is not
 		m := [][3]string{{"0000000000000000 0000fffe00000000", "95", "96"}, {"0000000000000000 0000ffc000000000", "90", "100"}, {"0000000000000000 0000ff0000000000", "88", "96"},
-			{"0000000000000000 0000fffe00000000", "95", "128"}, {"0000000000000000 0000fff000000000", "92", "104"}}[rng.Intn(5)]
+			{"0000000000000000 0000fffe00000000", "95", "128"}, {"0000000000000000 0000fff000000000", "92", "104"},
+			// blocks wider than /96 that swallow the mapped space whole
+			{"0000000000000000 0000000000000000", "64", "80"}, {"0000000000000000 0000000000000000", "80", "88"}, {"0000000000000000 0000fffe00000000", "95", "95"}, {"0000000000000000 0000ff0000000000", "88", "92"},
+			{"0000000000000000 0000000000000000", "76", "80"}}[rng.Intn(10)]
 		c.Start = engarith.IPOf(func() *big.Int { v, _ := new(big.Int).SetString(strings.ReplaceAll(m[0], " ", ""), 16); return v }()).String()
 		fmt.Sscan(m[1], &c.PoolLen)
 		fmt.Sscan(m[2], &c.Page)
@@ -312,6 +315,13 @@ func (r *allocRun) pickBlock(wantOut bool) (uint64, bool) {
 func (r *allocRun) addrIn(idx int64, atBase bool) net.IP {
 	v := r.pool.BlockBase(idx)
 	if !atBase && !r.pool.V4 && r.pool.Page < 128 {
+		// a block that covers all of the IPv4-mapped space (::ffff:0:0/96): half of the addresses drawn
+		// inside it are mapped ones (the form net.IP.To4 answers for)
+		mapped := new(big.Int).SetUint64(0xffff00000000)
+		end := new(big.Int).Add(v, r.pool.BlockSize())
+		if r.pool.Page < 96 && v.Cmp(mapped) <= 0 && end.Cmp(new(big.Int).SetUint64(0x1000000000000)) >= 0 && r.rng.Intn(2) == 0 {
+			return r.pool.IP(mapped.Add(mapped, new(big.Int).SetUint64(uint64(r.rng.Uint32()))))
+		}
 		off := new(big.Int).Rand(r.rng, r.pool.BlockSize())
 		v.Add(v, off)
 	}
